@@ -417,6 +417,28 @@ def d5(chk, prog):
         else:
             got = repr(out)[:80]
         tb.cell(got == want, dict(filter=name, one_row=cols, got=got, want=want))
+    # a table left without rows (ampdel kept nothing: no cn 0, no cn >= 5), filtered again: every filter hands the empty table back
+    for name, colnames in (("cn", ["cn"]), ("ampdel", ["cn"]), ("ci", ["ci_lo", "ci_hi"]), ("sem", ["sem"])):
+        W.reset()
+        fi = prog.fn(f"{SF}.{name}")
+        cols = ["chromosome", "start", "end", "gene", "log2", "probes", "weight", "rowid"] + colnames
+        df = DF({c: Vec([], aligned=True) for c in cols}, 0)
+        df.exact = True
+        for v in df.cols.values():
+            v.exact = True
+        g = GA("CopyNumArray", df, 0, {"sample_id": "S"})
+        model = Model()
+        model.prims[f"{SF}.squash_region"] = lambda it, sub: _one_region(sub)
+        it = Interp(prog, model)
+        try:
+            out = it.call(Closure(fi.node, {}, fi.mod, fi.qn), [g], {})
+            got = out.data.n if isinstance(out, GA) else repr(out)[:60]
+        except Raised as r:
+            got = f"raised {r}"
+        except Undecided as u:
+            tb.undecided.append(f"{name} on an empty table: {u}")
+            continue
+        tb.cell(got == 0, dict(filter=name, table="no rows", rows_returned=got, want=0))
     tb.done("a filter merges rows that are not a run of its own level (e.g. levels re-attached by position while the table keeps other index labels), or ampdel keeps a lone neutral segment")
 
 
